@@ -66,6 +66,15 @@ func replayC05(r *Run, o *Obligation) *ReplayResult {
 	cands := enumStrings(alpha, 3)
 	cands = append(cands, "url(javascript:alert(1))", "url(\"javascript:x\")", "url(/a) ; } body { background:red ; (b)", "url(\"/a\"); color:red; x:url(\"b\")",
 		"\"a\";color:red;\"b\"", "\"</style><script>alert(1)</script>\"", "expression(alert(1))", "red;}", "url(data:x)", "url('vbscript:x')", "a/**/b", "\"x\\\"", "url( \tJavaScript:x)", "serif\",\"", "url(/x)\n;", "\"\n\"")
+	// structured shapes: every wrapper prefix x inner text x wrapper suffix (also mismatched), quoted names, lists
+	inners := []string{"", "x", "/a.png", "x y", ";", "a\"b", "a'b", "a)b", "a(b", "a\\b", "javascript:x", "}"}
+	for _, p := range []string{"url(\"", "url('", "url(", "URL(\"", "\"", "'"} {
+		for _, in := range inners {
+			for _, sfx := range []string{"\")", "')", ")", "\"", "'", ""} {
+				cands = append(cands, p+in+sfx, p+in+sfx+", url(\"/b.png\")", "url(\"/b.png\"), "+p+in+sfx, "serif, "+p+in+sfx)
+			}
+		}
+	}
 	in, detail, bad := check(cands)
 	rr := &ReplayResult{Confirmed: bad, Input: fmt.Sprintf("bounded search: %d values (CSS-adversarial alphabet up to length 3 + vectors) x %d properties", len(cands), len(props)), Detail: "REPLAY-NOT-REPRODUCED"}
 	if bad {
